@@ -236,12 +236,15 @@ unsafe impl GlobalAlloc for Oracle {
                         break;
                     }
                 }
-                if !found {
-                    // allocated in an earlier execution (must not happen) -> just release
-                    s.machinery_error = true;
-                }
                 log_event(s, Event { is_alloc: false, size, align, user: ptr as usize });
-                // quarantined: released in end_execution
+                if !found {
+                    // A crate-attributed block that outlived its execution (it was reported
+                    // as leaked by end_execution, e.g. a diagnostic string built inside the
+                    // window on a violation path): release it directly.
+                    let balign = if align < 16 { 16 } else { align };
+                    System.dealloc(ptr.sub(pad), Layout::from_size_align_unchecked(pad + size + REAR, balign));
+                }
+                // otherwise quarantined: released in end_execution
             } else {
                 let balign = if align < 16 { 16 } else { align };
                 System.dealloc(ptr.sub(pad), Layout::from_size_align_unchecked(pad + size + REAR, balign));
